@@ -4,7 +4,10 @@
 case kinds (see RULE): `tree` - one formula on a fresh parser: (a) fixed list and seeded trees, (c) grid of range texts;
 with key `debug` the fresh parser is constructed with debug=True and what it prints goes to a sink;
 `session` - (d) step k of several formulas evaluated one after another on one parser; `reent` - (e) a host whose callbacks
-evaluate further formulas on the same parser; `setter` - (b) a plan of setter calls for one reference"""
+evaluate further formulas on the same parser; `setter` - (b) a plan of setter calls for one reference; family (f) (zero-argument
+calls of registered builtins, ranges whose corners share a row / column index) adds cases of all four kinds, generated after the
+others; a `tree` case / the steps of a `session` may carry `fnset` (name -> FNVALS index): a callFunction listener hands that
+value to the setter of the calls of that name written with empty parentheses"""
 import copy
 import datetime
 import json
@@ -61,7 +64,9 @@ RULE = ('(a) kind `tree`: 45 fixed formulas (reversed / one-cell / $-mixed range
         'all the same (seeded trees of (a) and seeded steps of (d) only; not fixed texts, not (e)); each cell event carries '
         'label.upper(), coordinates computed by an independent bijective base-26 / row-1 reference and the $ flags; each '
         'range event carries (min row, min col), (max row, max col) built from the written row/column parts with their $ '
-        'flags and labels that recompose from their own coordinates; a variable event carries the (first) name, a call '
+        'flags - per coordinate: when the first written row (column) index is not larger than the second, a shared row (column) '
+        'included, the top-left cell carries the first written row (column) part, index and $, and the bottom-right cell the second; '
+        'otherwise the two parts are exchanged whole - and labels that recompose from their own coordinates; a variable event carries the (first) name, a call '
         'event the name and, for a flat (not two-row) argument list, as many arguments as slots. Compared with the model: '
         'record (4 ulps or 1e-9 relative) and full event list of `eval` (all fields incl. the part labels; call arguments '
         'like the record within 4 ulps or 1e-9 relative, absolute below 1; unmodelled ones accepted); where the model has no opinion on the result (unmodelled builtin) its '
@@ -118,7 +123,36 @@ RULE = ('(a) kind `tree`: 45 fixed formulas (reversed / one-cell / $-mixed range
         'quick family is regenerated with scale 6 (9000 trees + the debug copies of 12% of them, all 64 grid pairs, 2100 sessions, 2400 re-entrant attempts, '
         '4200 setter plans) and judged by the oracle alone, up to the first failure; a failing generated tree / session / '
         'outer formula is replaced by a smaller failing one (sub-tree; the step alone or after 1..2 of its predecessors; the sub-trees '
-        'of a `debug` tree are tried on a parser without debug=True - when none fails there the case is reported as it is).')
+        'of a `debug` tree are tried on a parser without debug=True - when none fails there the case is reported as it is; a sub-tree keeps the `fnset` of its case). '
+        '(f) generated after (a)-(e) from the same stream (their draws are what they were without it): zero-argument calls of the '
+        'registered builtins PI TRUE FALSE NA NOW TODAY RAND (reduced by the grammar rule of its own `FUNCTION ( )`) and ranges whose two '
+        'corners share the row index, the column index or both while their $ markers differ. Kind `tree`: 36 fixed texts with the '
+        'values a listener fixes (each builtin alone; SUM(A1,PI()*0,va), IF(TRUE(),A1,B2), IFERROR(NA(),A1)+B1, ARGS(NOW(),A1,RAND()), '
+        'K7()+PI(), {PI(),TRUE()}, -PI(), NOSUCH(), SUM(), AND(), Vat(), ...; one on a debug parser), 16 fixed tied ranges (A$1:C1 A1:C$1 C$1:A1 '
+        '$B2:B9 $B9:B2 $b$2:b9 $D$4:D4 $D4:D$4 A$1048576:XFD1048576, inside COUNT / ARGS / SUM), 420 / 7000 x scale seeded trees of (a) '
+        'generated with two more leaf kinds: 16% of the leaves are a call with empty parentheses of PI (2 of 12) TRUE (2) FALSE NA NOW '
+        '(2) TODAY RAND (2) or the custom K7, and 40% of the ranges are tied (one row / one column / one cell, equally likely; for a '
+        'shared coordinate 3 of 4 with $ on one corner only - the first or the second, equally likely - else the same marker; a '
+        'coordinate that is not shared written in either order with independent markers, mixed case); 8% of them are repeated on a '
+        'debug parser; 90 / 1200 x scale seeded sessions of (d) generated the same way (30% of the pool ranges tied) and one '
+        'fixed session of 7 steps. Each seeded tree / session carries `fnset`: for the zero-argument calls it holds (K7 only when '
+        'all its K7 calls are written with empty parentheses) none (30%), all (20%) or each with p 0.6 gets one of 9 values {None, 0, '
+        'False, 0.25, 7, True, "", "abc", 1999.5}; a callFunction listener (registered with the recording listeners) hands it '
+        'to the setter of exactly the calls of that name that have no argument, through the call script of the name. Oracle as in '
+        '(a) / (d): one callFunction event per call, the zero-argument ones with an empty argument list, in post-order; the total-tree '
+        'strengthening also for trees holding zero-argument PI / TRUE / FALSE / RAND calls (and NOW / TODAY when the listener '
+        'replaces the date), never NA. The RESULT of a clock / random call nobody fixes is judged by nothing (the '
+        'model answers no-opinion at the first of them: its events must be a prefix). Grid of tied ranges: 8 x scale sampled / all 64 '
+        'ordered pairs of the 8 grid labels, each giving a one-row, a one-column and a one-cell range, written with all 16 marker '
+        'patterns of the two corners (each corner its own $ pattern, second corner lower case) plus one ARGS call per shape: 408 / 3264. '
+        'Kind `reent`: 3 fixed scenarios (PI() / TRUE() / NA() / FALSE() and tied ranges in outer and stored formulas; no clock or random '
+        'call, the two runs must agree). Kind `setter`: 260 / 2000 x scale plans (as in (b), 17 pool values) for NAME() of the 7 builtins, '
+        'bare or handed to the capturing function CAP alone or inside SUM(A1,CAP(.),va)&K7(), ARGS(B2,CAP(.),va.vb), CAP(.)+nosuchvar, '
+        'IF(TRUE,CAP(.),K7()); the plan\'s listeners act on the event of that name with no arguments only. Oracle: last non-None value, else '
+        'what the builtin returns by itself (pi, TRUE, FALSE, #N/A; for NOW / TODAY / RAND nothing is demanded of the value then), same type, and '
+        'exactly one callFunction event of that name; model: applySetters (for a clock / random call only when a value was supplied - the '
+        'initial value, which cannot matter then, is sent as an unmodelled value). The scale-6 search family regenerates (f) alike '
+        '(2520 trees, 540 sessions, 48 grid pairs, 1560 plans).')
 TRUSTED = ['ply evaluates semantic actions bottom-up, left to right (the model evaluates the tree in post-order); tied by this '
            'correspondence check, not proved',
            'the tree the model parser builds for the formula text is the generating tree (C04/C05 correspondence); for fixed '
@@ -149,6 +183,11 @@ TRUSTED = ['ply evaluates semantic actions bottom-up, left to right (the model e
            'objects with their own equality copy to themselves and are looked at by identity only); the steps of a session '
            'are run once, in order, on one parser and each per-step case reads its slice of that log; a re-entrant host '
            'that nests beyond depth 12 is stopped by the harness (RuntimeError)',
+           'key fnset: the model\'s `eval` has no function setter (setters are modelled by applySetters alone); a zero-argument call whose value '
+           'a callFunction listener fixes to v (not None) reaches the model as a host function of that name returning v, which gives the '
+           'same event (name, no arguments) and the value v; that the BUILTIN was still consulted or not is invisible to both sides. What '
+           'NOW / TODAY / RAND return when nobody fixes them is compared with nothing; PI() is an unmodelled builtin (no-opinion); '
+           'the generators\' switch _EXT is process state of the harness, set only while family (f) is generated',
            'key debug: what a parser constructed with debug=True prints goes to sys.stdout / sys.stderr only '
            '(contextlib.redirect_stdout / redirect_stderr into io.StringIO around the one parse); the model has no debug flag - the '
            'request of a debug case is that of the same formula without it']
@@ -163,10 +202,19 @@ ASSUMPTIONS = ['labels with a zero row or leading zeros (A0, A01) are outside th
                'an error in the record can only be an error VALUE (division by zero is #DIV/0!, arithmetic on text - a text '
                'cell - is #VALUE!), nothing was aborted, and the oracle itself demands one event for every '
                'reference and call',
-               'for a one-row (one-column) range whose two row (column) parts differ only by $, either part may be reported '
-               'as the start; in a range the $ flag belongs to the row / column part it was written on and moves with it '
-               'when the corners are normalised, and a corner label agrees with its coordinates when it is $-flag + column '
-               'letters + $-flag + row number of exactly those parts, in upper case',
+               'in a range the $ flag belongs to the row / column part it was written on; `the top-left and bottom-right cells however '
+               'the corners were written` with `its absolute markers` is read per coordinate: rows (columns) are exchanged only when the '
+               'first written row (column) lies below (right of) the second, and then the parts travel whole, index with marker; when it '
+               'does not - in particular when both corners lie in the same row (column) - nothing is exchanged in that coordinate and each '
+               'delivered corner carries the marker it was written with (A$1:C1 is A$1 : C1 and A1:C$1 is A1 : C$1; C$1:A1 is A$1 : C1, the '
+               'columns exchanged, the rows not; $D$4:D4 is $D$4 : D4). This replaces the earlier reading that for a shared row (column) '
+               'either part may be reported as the start (the Lean theorem range_corner_order_irrelevant still excludes that case; '
+               'the rule itself is the definition of callRange in the model and is compared event by event). A corner label agrees with its '
+               'coordinates when it is $-flag + column letters + $-flag + row number of exactly those parts, in upper case',
+               'a function call written with empty parentheses is a function call like any other: it raises exactly one callFunction '
+               'event with an empty argument list, whether the name is a registered builtin or a host function, and the last non-None '
+               'value handed to that event\'s setter becomes the value of the call; for NOW / TODAY / RAND the statement fixes the value '
+               'only when a listener supplies one',
                '`corresponding event` for a call = its name (and the number of argument slots for a flat argument list); the '
                'argument values are compared with the model only (and, for re-entrant hosts, with the non-re-entrant run); '
                'for a variable = the first name of a dotted sequence, once; literals, operators, arrays and omitted slots '
@@ -232,6 +280,13 @@ POOL = [None, 0, 0.0, False, '', 'x', 5, [], [1], DATE,     # setter values, by 
 VARS = {'va': 53, 'vb': 2, 'v_c': 0.5, 'rate_x': 0, 'flag': True, 'txt': 'q7'}
 CUSTOM = {'ID': '(first)', 'ARGS': '(args)', 'K7': '(const (i 7))', 'BOOM': '(raisexl div0)',
           'Vat': '(first)', 'net_of': '(args)'}          # host functions registered under names with lower-case letters
+# registered builtins that take no argument: written with EMPTY parentheses they are reduced by the grammar rule of its own
+# `FUNCTION ( )`.  CLOCK: what they return is not fixed by the formula (only a listener's setter fixes it)
+ZERO = ['PI', 'TRUE', 'FALSE', 'NA', 'NOW', 'TODAY', 'RAND']
+CLOCK = ('NOW', 'TODAY', 'RAND')
+# what a callFunction listener hands over for a zero-argument call (case key `fnset`: name -> index), by index
+FNVALS = [None, 0, False, 0.25, 7, True, '', 'abc', 1999.5]
+_EXT = [False]          # generator switch: the scenario classes of (f) (zero-argument builtins, tied range corners)
 MODELLED = ['SUM', 'IF', 'AND', 'OR', 'NOT', 'ISNUMBER', 'ISBLANK', 'N', 'IFERROR', 'ISTEXT']
 UNMODELLED = ['MAX', 'ABS', 'COUNT']
 _levels = [None]
@@ -392,7 +447,7 @@ class DepthLog(list):
         self.depths.append(self.d)
 
 
-def new_parser(log, values=True, host=None, debug=False):
+def new_parser(log, values=True, host=None, debug=False, fnset=None):
     """a fresh hotxlfp.Parser with one recording listener per event.  `host` (re-entrant scenarios): an object
     with `cells` / `names` (label / variable name -> formula the host stores there), `fns` (names of INDIRECT-like
     functions) and `evaluate(parser, formula) -> record`"""
@@ -434,6 +489,9 @@ def new_parser(log, values=True, host=None, debug=False):
 
     def on_fn(name, args, setter):
         log.append(('fn', name, snapshot(args)))
+        if fnset and name in fnset and len(args) == 0:
+            # a host that fixes the value of exactly that call (freezes the clock, seeds the random number)
+            hand_over(setter, snapshot(FNVALS[fnset[name]]), setter_script('f' + name))
     # ahead of the recording listeners: a one-shot tracer (once) and a listener that unsubscribes itself at its first call - hosts
     # do that - so that the listener list changes WHILE the first event of each kind is being delivered
     for ev in ('callCellValue', 'callRangeValue', 'callVariable', 'callFunction'):
@@ -502,8 +560,44 @@ def gen_label(rng, letters=None, row=None):
     return ('$' if rng.random() < 0.4 else '') + mix_case(rng, letters) + ('$' if rng.random() < 0.4 else '') + str(row)
 
 
+def gen_tied_range(rng, pool=None):
+    """a range whose corners share the row index, the column index or both (one row / one column / one cell); for a shared
+    coordinate the two corners carry DIFFERENT $ markers 3 times of 4 ($ on the first or on the second corner only), the same
+    marker otherwise; a coordinate that is not shared is written in either order with independent markers"""
+    if pool is not None:
+        c1, c2 = rng.choice(pool['cols'])[0], rng.choice(pool['cols'])[0]
+        r1, r2 = rng.choice(pool['rows'])[0], rng.choice(pool['rows'])[0]
+    else:
+        c1, c2 = gen_letters(rng), gen_letters(rng)
+        r1, r2 = gen_row(rng), gen_row(rng)
+    shape = rng.choice(['row', 'col', 'cell'])
+    if shape != 'row':
+        c2 = c1
+    if shape != 'col':
+        r2 = r1
+
+    def markers(tied):
+        if tied and rng.random() < 0.75:
+            m = rng.random() < 0.5
+            return m, not m
+        if tied:
+            m = rng.random() < 0.5
+            return m, m
+        return rng.random() < 0.4, rng.random() < 0.4
+    ca, cb = markers(c1 == c2)
+    ra, rb = markers(r1 == r2)
+    if rng.random() < 0.5:
+        (c1, ca), (c2, cb) = (c2, cb), (c1, ca)
+    if rng.random() < 0.5:
+        (r1, ra), (r2, rb) = (r2, rb), (r1, ra)
+    return ('range', ('$' if ca else '') + mix_case(rng, c1) + ('$' if ra else '') + str(r1),
+            ('$' if cb else '') + mix_case(rng, c2) + ('$' if rb else '') + str(r2))
+
+
 def gen_range(rng):
     """two corners of a rectangle written in one of the four corner orders"""
+    if _EXT[0] and rng.random() < 0.4:
+        return gen_tied_range(rng)
     c1, c2 = gen_letters(rng), gen_letters(rng)
     r1, r2 = gen_row(rng), gen_row(rng)
     if rng.random() < 0.15:
@@ -564,10 +658,15 @@ def pool_cell(rng, pool):
 
 def pool_range(rng, pool):
     """both corners from the pool, picked independently: all four corner orders, one-row / one-column / one-cell ranges"""
+    if _EXT[0] and rng.random() < 0.3:
+        return gen_tied_range(rng, pool)
     return ('range', pool_label(rng, pool), pool_label(rng, pool))
 
 
 def gen_leaf(rng, mode=ANY, pool=None):
+    if _EXT[0] and rng.random() < 0.16:
+        # a registered builtin called with EMPTY parentheses (half of the draws one whose value the formula does not fix)
+        return ('call', rng.choice(['PI', 'PI', 'TRUE', 'TRUE', 'FALSE', 'NA', 'NOW', 'NOW', 'TODAY', 'RAND', 'RAND', 'K7']), 'empty', [], [])
     if pool is not None:
         if pool['reent'] and rng.random() < pool['p_re']:
             return _use(rng, rng.choice(pool['reent']))
@@ -917,6 +1016,44 @@ def formula_of(c):
     return s
 
 
+def gen_fnset(rng, trees):
+    """which of the zero-argument calls of the trees a callFunction listener fixes, and to which FNVALS index: none (30%), all
+    (20%) or each with p 0.6; K7 only when every K7 call of the trees is written with empty parentheses (the listener fixes the
+    call without arguments, the model knows a fixed call only as a host function of that name)"""
+    names, k7_args = set(), False
+    for t in trees:
+        for e in postorder(t):
+            if e[0] == 'fn' and e[2] == 0 and (e[1] in ZERO or e[1] == 'K7'):
+                names.add(e[1])
+            elif e[0] == 'fn' and e[1] == 'K7':
+                k7_args = True
+    if k7_args:
+        names.discard('K7')
+    mode = rng.random()
+    p = 0.0 if mode < 0.3 else (1.0 if mode < 0.5 else 0.6)
+    fs = {}
+    for n in sorted(names):
+        if rng.random() < p:
+            fs[n] = rng.randrange(len(FNVALS))
+    return fs
+
+
+# (f) fixed texts: zero-argument builtins alone and inside larger formulas (with the FNVALS indexes a listener fixes them to),
+# ranges whose corners share a row / column index with $ on one corner only
+ZERO_FIXED = [
+    ('PI()', {}), ('TRUE()', {}), ('FALSE()', {}), ('NA()', {}), ('NOW()', {}), ('TODAY()', {}), ('RAND()', {}),
+    ('SUM(A1,PI()*0,va)', {}), ('SUM(A1,PI()*0,va)', {'PI': 4}), ('IF(TRUE(),A1,B2)', {}), ('IF(TRUE(),A1,B2)', {'TRUE': 2}),
+    ('IFERROR(NA(),A1)+B1', {}), ('IFERROR(NA(),A1)+B1', {'NA': 1}), ('ARGS(NOW(),A1,RAND())', {}),
+    ('ARGS(NOW(),A1,RAND())', {'NOW': 8, 'RAND': 1}), ('RAND()+1', {'RAND': 1}), ('A1+RAND()+B1', {}), ('A1+NOW()+B1', {'NOW': 3}),
+    ('TODAY()-A1', {'TODAY': 8}), ('K7()+PI()', {'K7': 1, 'PI': 1}), ('ID(PI())&K7()', {'PI': 6}), ('{PI(),TRUE()}', {'TRUE': 2}),
+    ('NOT(FALSE())', {'FALSE': 5}), ('-PI()', {'PI': 4}), ('PI()*PI()+pi', {'PI': 3}), ('SUM(B2:A1,RAND(),TODAY())', {'RAND': 1}),
+    ('NOSUCH()', {}), ('BOOM()+PI()', {}), ('Vat()', {}), ('net_of()', {}), ('ARGS()', {}), ('SUM()', {}), ('AND()', {}),
+    ('SUM(A1,K7(),va)', {'K7': 1}), ('vb+TRUE()*2', {}), (' PI() + A1 ', {}),
+]
+TIED_FIXED = ['A$1:C1', 'A1:C$1', 'C$1:A1', 'C1:A$1', '$B2:B9', 'B2:$B9', '$B9:B2', 'B9:$b2', '$b$2:b9', '$D$4:D4', 'D4:$D$4',
+              '$D4:D$4', 'A$1048576:XFD1048576', 'SUM(1,2)+COUNT(A$1048576:XFD1048576)', 'ARGS(A$1:C1,a1,C$1)', 'SUM($B2:B9)+SUM(B2:$B9)']
+
+
 GRID_LABELS = [('A', 1), ('B', 5), ('Z', 9), ('AA', 10), ('XFD', 1048576), ('XFE', 1048577), ('ZZZZ', 100), ('iv', 65536)]
 
 
@@ -991,16 +1128,97 @@ def cases(rng, ctx):
             c['init'] = rng.randrange(len(POOL))                            # POOL index of the custom function's return value
             c['target'] = {'custom': 'FN(1)', 'builtin': 'SUM(1,2)', 'raise': 'BOOM(1)'}[c['fnkind']]
         out.append(c)
+    out += cases_f(rng, thorough, scale, maxd)
     return out
+
+
+def cases_f(rng, thorough, scale, maxd):
+    """(f) zero-argument calls of registered builtins and ranges whose corners share a row / column index; generated AFTER
+    the families (a)-(e) so that their random stream is what it was"""
+    out = []
+    for f, fs in ZERO_FIXED:
+        out.append({'kind': 'tree', 'f': f, 'fnset': fs})
+    out += [{'kind': 'tree', 'f': f} for f in TIED_FIXED]
+    out.append({'kind': 'tree', 'f': 'A1+PI()*TRUE()', 'fnset': {'PI': 4}, 'debug': True})
+    _EXT[0] = True
+    try:
+        # seeded trees whose leaves include zero-argument builtins and tied ranges
+        for _ in range((7000 if thorough else 420) * scale):
+            t = gen(rng, rng.randrange(0, maxd + 1))
+            c = {'kind': 'tree', 't': t, 'full': rng.random() < 0.3, 'ws': rng.randrange(1 << 30) if rng.random() < 0.3 else 0,
+                 'fnset': gen_fnset(rng, [t])}
+            out.append(c)
+            if rng.random() < 0.08:
+                out.append(dict(c, debug=True))
+        # seeded sessions of such formulas on one long-lived parser; the listener's fixings hold for the whole session
+        for _ in range((1200 if thorough else 90) * scale):
+            steps = gen_session(rng, 3 if rng.random() < 0.7 else maxd - 1)
+            fs = gen_fnset(rng, [st['t'] for st in steps])
+            for st in steps:
+                st['fnset'] = fs
+            out += [{'kind': 'session', 'steps': steps, 'k': k} for k in range(len(steps))]
+    finally:
+        _EXT[0] = False
+    out.append({'kind': 'session', 'k': 0, 'steps': [{'f': f, 'fnset': {'NOW': 8, 'TRUE': 2}} for f in
+                                                      ['NOW()', 'A$1:C1', 'NOW()+A1', 'C$1:A1', 'IF(TRUE(),PI(),RAND())', 'A1:C$1', 'TRUE()']]})
+    out += [dict(out[-1], k=k) for k in range(1, 7)]
+    # grid of tied ranges: every ordered pair of grid labels gives a one-row, a one-column and a one-cell range, written with
+    # all 16 marker patterns of the two corners (each corner its own $ pattern); one pattern per shape inside a call
+    pats = [(a, b) for a in ('', '$') for b in ('', '$')]
+    pairs = [(p, q) for p in GRID_LABELS for q in GRID_LABELS]
+    if not thorough:
+        pairs = rng.sample(pairs, min(len(pairs), 8 * scale))
+    for (c1, r1), (c2, r2) in pairs:
+        for (x2, y2) in ((c2, r1), (c1, r2), (c1, r1)):
+            for (ca, ra) in pats:
+                for (cb, rb) in pats:
+                    out.append({'kind': 'tree', 'f': '%s%s%s%d:%s%s%s%d' % (ca, c1, ra, r1, cb, x2.lower(), rb, y2)})
+            (ca, ra), (cb, rb) = rng.choice(pats), rng.choice(pats)
+            out.append({'kind': 'tree', 'f': 'ARGS(%s%s%s%d:%s%s%s%d,%s%d)' % (ca, c1.lower(), ra, r1, cb, x2, rb, y2, x2, y2)})
+    # re-entrant hosts whose stored formulas / outer formula call zero-argument builtins with a value of their own
+    out += [_reent_fixed(d) for d in [
+        {'outer': 'A1+PI()*0+C1', 'cells': {'A1': 'B1*TRUE()'}},
+        {'outer': 'IF(TRUE(),EVALF("PI()+B1"),NA())+C1', 'fns': {'EVALF': 'PI()+B1'}},
+        {'outer': 'SUM(A$1:C1)+nf_a', 'names': {'nf_a': 'SUM($B2:B9)+FALSE()'}}]]
+    # setter protocols for a zero-argument builtin call, bare, captured, captured inside a larger formula
+    for _ in range((2000 if thorough else 260) * scale):
+        c = {'kind': 'setter', 'ev': 'fn', 'fnkind': 'zero', 'zname': rng.choice(ZERO), 'frame': rng.randrange(len(ZFRAMES)),
+             'plan': [[rng.randrange(len(POOL)) for _ in range(rng.randrange(0, 4))] for _ in range(rng.randrange(0, 4))]}
+        if rng.random() < 0.25:
+            c['plan'] = [[0 for _ in p] for p in c['plan']]
+        c['wrap'] = c['frame'] != 0
+        c['target'] = c['zname'] + '()'
+        c['init'] = 0
+        out.append(c)
+    return out
+
+
+ZFRAMES = ['%s', 'CAP(%s)', 'SUM(A1,CAP(%s),va)&K7()', 'ARGS(B2,CAP(%s),va.vb)', 'CAP(%s)+nosuchvar', 'IF(TRUE,CAP(%s),K7())']
 
 
 # ------------------------------------------------------------------ running
 
 def _setter_formula(c):
+    if 'frame' in c:
+        return ZFRAMES[c['frame']] % c['target']     # frame 0 is the bare call, the others hand it to the capturing function
     return ('CAP(%s)' % c['target']) if c['wrap'] else c['target']
 
 
 _last_session = [None, None]
+
+
+def _session_fnset(steps):
+    """what the callFunction listener of the session's parser fixes (the same for all steps)"""
+    for st in steps:
+        if st.get('fnset'):
+            return st['fnset']
+    return None
+
+
+def _fnset_of(c):
+    if c['kind'] == 'session':
+        return _session_fnset(c['steps'])
+    return c.get('fnset') if c['kind'] == 'tree' else None
 
 
 def run_session(steps):
@@ -1008,7 +1226,7 @@ def run_session(steps):
     key = json.dumps(steps, sort_keys=True)
     if _last_session[0] != key:
         log = []
-        p = new_parser(log)
+        p = new_parser(log, fnset=_session_fnset(steps))
         res = []
         for st in steps:
             f = formula_of(st)
@@ -1082,7 +1300,7 @@ def run_reent(c):
 def impl(c):
     if c['kind'] == 'tree':
         log = []
-        p = new_parser(log, debug=bool(c.get('debug')))
+        p = new_parser(log, debug=bool(c.get('debug')), fnset=c.get('fnset'))
         f = formula_of(c)
         if c.get('debug'):
             # a parser constructed with debug=True prints what it meets; the events and the record are what they are without it
@@ -1116,7 +1334,7 @@ def impl(c):
 
     def make(plan):
         def listener(*args):
-            if ev == 'fn' and args[0] != fname:
+            if ev == 'fn' and (args[0] != fname or (c.get('fnkind') == 'zero' and len(args[1]) != 0)):
                 return
             if ev == 'var' and args[0] != 'vx':
                 return
@@ -1144,6 +1362,12 @@ def _init_value(c):
         return True, POOL[c['init']]
     if c['fnkind'] == 'custom':
         return True, POOL[c['init']]
+    if c['fnkind'] == 'zero':
+        # what the builtin returns by itself; the clock and the random number are not fixed by the formula
+        import math
+        if c['zname'] in CLOCK:
+            return False, None
+        return True, {'PI': math.pi, 'TRUE': True, 'FALSE': False, 'NA': error.NOT_AVAILABLE}[c['zname']]
     if c['fnkind'] == 'builtin':
         return True, 3
     return True, error.DIV_ZERO
@@ -1178,6 +1402,14 @@ def request(c):
         f = formula_of(st)
         cells, ranges = {}, {}
         variables, fns = VARS, CUSTOM
+        fnset = _fnset_of(c)
+        if fnset:
+            # the model's `eval` has no function setter: a zero-argument call whose value a listener fixes reaches it as a host
+            # function of that name returning that value (one event, the fixed value)
+            fns = dict(CUSTOM)
+            for name, i in fnset.items():
+                if FNVALS[i] is not None:
+                    fns[name] = '(const %s)' % fx.to_wire(FNVALS[i])
         flat = None
         if c['kind'] == 'reent':
             memo = {}
@@ -1212,9 +1444,12 @@ def request(c):
                     ranges[(l1, l2)] = v
         return 'eval %s %s' % (enc_str(f), fx.env_wire(variables=variables, fns=fns, cells=cells, ranges=ranges))
     known, init = _init_value(c)
+    vals = [POOL[i] for plan in c['plan'] for i in plan]
+    if not known and c.get('fnkind') == 'zero' and any(v is not None for v in vals):
+        # the clock / the random number: what the call returned is outside the comparison, a supplied value replaces it whatever it was
+        return 'setters (o clock-or-random) ' + ' '.join(fx.to_wire(v) for v in vals)
     if not known:
         return None
-    vals = [POOL[i] for plan in c['plan'] for i in plan]
     return 'setters ' + ' '.join(fx.to_wire(v) for v in [init] + vals)
 
 
@@ -1339,6 +1574,16 @@ def _check_range(e, a, b):
         return 'range %s: row parts %r/%r are not the written rows %r/%r (index, $)' % (w, sr, er, pa_r, pb_r)
     if sorted([sc, ec]) != sorted([pa_c, pb_c]):
         return 'range %s: column parts %r/%r are not the written columns %r/%r (index, $)' % (w, sc, ec, pa_c, pb_c)
+    # a coordinate whose first written part does not lie below / right of the second (a shared row / column included) is NOT
+    # exchanged: each delivered corner carries the part - index and $ marker - it was written with; else the parts travel whole
+    for what, (s_, e_), (pa, pb) in (('row', (sr, er), (pa_r, pb_r)), ('column', (sc, ec), (pa_c, pb_c))):
+        want = (pa, pb) if pa[0] <= pb[0] else (pb, pa)
+        if (s_, e_) != want:
+            return ('range %s: delivered %s parts (index, $) top-left %r / bottom-right %r; written first %r / second %r, so the '
+                    'top-left cell must carry %r and the bottom-right cell %r (%s)' % (
+                        w, what, s_, e_, pa, pb, want[0], want[1],
+                        'same index: nothing to exchange, each corner keeps the marker it was written with' if pa[0] == pb[0]
+                        else 'the parts travel with their markers'))
     if e[1] != ref_compose(sr, sc):
         return 'range %s: start cell labelled %r but its coordinates (row %d, col %d) denote %r' % (
             w, e[1], sr[0], sc[0], ref_compose(sr, sc))
@@ -1357,7 +1602,7 @@ def _expected(st):
     return _expected_fixed(st['f'])
 
 
-def never_aborts(t):
+def never_aborts(t, fnset=None):
     """is the tree made only of constructs that cannot RAISE (numbers, cells, bound variables, + - * / on them, SUM / ID / ARGS /
     K7 calls, ranges as arguments of SUM)?  Then an error in its record is an error VALUE (a division by zero, text under
     arithmetic): nothing was aborted and every reference and call is still evaluated and reported"""
@@ -1371,15 +1616,20 @@ def never_aborts(t):
     if k == 'var':
         return t[1][0] in VARS and len(t[1]) == 1
     if k == 'bin':
-        return t[1] in ('+', '-', '*', '/') and never_aborts(t[2]) and never_aborts(t[3])
+        return t[1] in ('+', '-', '*', '/') and never_aborts(t[2], fnset) and never_aborts(t[3], fnset)
     if k == 'call':
+        if t[2] == 'empty' and t[1] in ZERO:
+            # a number or a logical (or the number / logical / text a listener fixes it to: text under arithmetic is #VALUE!);
+            # the date of NOW / TODAY only when a listener replaces it; NA never (an error)
+            fixed = bool(fnset) and FNVALS[fnset.get(t[1], 0)] is not None
+            return t[1] in ('PI', 'TRUE', 'FALSE', 'RAND') or (t[1] in ('NOW', 'TODAY') and fixed)
         if t[1] not in ('SUM', 'ID', 'ARGS', 'K7', 'Vat', 'net_of') or t[2] not in ('flat', 'empty') or t[4]:
             return False
         for x in t[3]:
             if x != 'blank' and x[0] == 'range':
                 if t[1] != 'SUM' or ref_split(x[1]) is None or ref_split(x[2]) is None:
                     return False
-            elif not never_aborts(x):
+            elif not never_aborts(x, fnset):
                 return False
         return True
     return False
@@ -1456,14 +1706,14 @@ def oracle(c, ans):
         exp = _expected(c)
         if exp is None:
             return None
-        return _check_events(ans['f'], ans['rec'], ans['log'], exp, total='t' in c and never_aborts(_fix(c['t'])))
+        return _check_events(ans['f'], ans['rec'], ans['log'], exp, total='t' in c and never_aborts(_fix(c['t']), c.get('fnset')))
     if c['kind'] == 'session':
         # the statement, on every event of this step, whatever the parser evaluated before
         exp = _expected(_step(c))
         if exp is None:
             return None
         st = _step(c)
-        msg = _check_events(ans['f'], ans['rec'], ans['log'], exp, total='t' in st and never_aborts(_fix(st['t'])))
+        msg = _check_events(ans['f'], ans['rec'], ans['log'], exp, total='t' in st and never_aborts(_fix(st['t']), _fnset_of(c)))
         if msg and ans['before']:
             msg = 'after %r on the same parser: %s' % (ans['before'], msg)
         return msg
@@ -1493,20 +1743,29 @@ def oracle(c, ans):
     # setter protocol: last non-None value wins, else the default
     known, init = _init_value(c)
     vals = [v for v in ans['calls'] if v is not None]
+    judged = True
     if vals:
         expected = vals[-1]
     elif known:
         expected = init
+    elif c.get('fnkind') == 'zero':
+        judged = False           # the clock / a random number nobody fixed: only the event is judged
     else:
         return None              # undefined variable nobody supplied: #NAME? (C09)
     ok, got = _observed(c, ans)
-    if not ok:
+    if judged and not ok:
         return '%s with setter calls %r: no value observed (record %r)' % (ans['f'], ans['calls'], ans['rec'])
-    if not same(got, expected):
+    if judged and not same(got, expected):
         return '%s with setter calls %r (before emit: %r): the reference has value %r, expected %r' % (
-            ans['f'], ans['calls'], init if known else '<undefined>', got, expected)
+            ans['f'], ans['calls'], init if known else '<not fixed by the formula>' if c.get('fnkind') == 'zero' else '<undefined>',
+            got, expected)
     # exactly one event for the reference itself
     tag = {'cell': 'cell', 'range': 'range', 'var': 'var', 'fn': 'fn'}[c['ev']]
+    if c.get('fnkind') == 'zero':
+        k = len([e for e in ans['log'] if e[0] == 'fn' and e[1] == c['zname']])
+        if k != 1:
+            return '%s raised %d callFunction events for %s()' % (ans['f'], k, c['zname'])
+        return None
     k = len([e for e in ans['log'] if e[0] == tag and (tag != 'fn' or e[1] != 'CAP')])
     if k != 1:
         return '%s raised %d %s events' % (ans['f'], k, tag)
@@ -1614,8 +1873,9 @@ def shrink(c, msg):
     """smaller failing input, if one fails too"""
     kind = c.get('kind')
     if kind == 'tree' and 't' in c:
-        r = _shrink_tree(c['t'], lambda k: oracle({'kind': 'tree', 't': k}, impl({'kind': 'tree', 't': k})))
-        return ({'kind': 'tree', 't': r[0], 'full': False, 'ws': 0}, r[1]) if r else (c, msg)
+        extra = {'fnset': c['fnset']} if c.get('fnset') else {}
+        r = _shrink_tree(c['t'], lambda k: oracle(dict(extra, kind='tree', t=k), impl(dict(extra, kind='tree', t=k))))
+        return (dict(extra, kind='tree', t=r[0], full=False, ws=0), r[1]) if r else (c, msg)
     if kind == 'session':
         # fewer steps before the failing one, then smaller formulas
         best = (c, msg)
@@ -1633,12 +1893,12 @@ def shrink(c, msg):
                 continue
 
             def fails(sub, i=i):
-                cand = steps[:i] + [{'t': sub, 'full': False, 'ws': 0}] + steps[i + 1:]
+                cand = steps[:i] + [dict({'fnset': steps[i]['fnset']} if steps[i].get('fnset') else {}, t=sub, full=False, ws=0)] + steps[i + 1:]
                 r = _fails({'kind': 'session', 'steps': cand, 'k': len(cand) - 1})
                 return r[1] if r else None
             r = _shrink_tree(steps[i]['t'], fails)
             if r:
-                steps[i] = {'t': r[0], 'full': False, 'ws': 0}
+                steps[i] = dict({'fnset': steps[i]['fnset']} if steps[i].get('fnset') else {}, t=r[0], full=False, ws=0)
                 best = ({'kind': 'session', 'steps': [dict(st) for st in steps], 'k': len(steps) - 1}, r[1])
         return best
     if kind == 'reent' and 't' in c['outer']:
